@@ -22,8 +22,12 @@ static int t2_sockfd(void) { return -1; }
 static HttpAsyncCtx hc; static CurlMulti multi;
 static struct KSI_AsyncClient_st parent; static struct KSI_AsyncHandle_list_st rq; static struct KSI_OctetString_list_st sq; static struct CurlAsyncRequest_list_st rc;
 static time_t t2_now0, t3_roundStartAt0; static size_t t3_roundCount0;
+#ifndef T_LIM
 #define T_LIM 0x80000000LL      /* |clock values| < 2^31 */
+#endif
+#ifndef OPT_LIM
 #define OPT_LIM 0xffffffffULL   /* time-outs, round duration, requests per round < 2^32 */
+#endif
 static time_t t2_nondet_time(void) { long long t = nondet_ll(); __CPROVER_assume(t > -T_LIM && t < T_LIM); return (time_t)t; }
 
 /* references to request handles */
@@ -238,9 +242,9 @@ void harness(void) {
 			__CPROVER_assert(t2_removed[i] == 1 && t2_released[i] == t2_removed[i] + t3_href[i] - ((t3_rc_len > 0 && t3_rc[t3_rc_len - 1]->reqCtx == &T2H(i)) ? 1u : 0u) , "curl refused a transfer: the failed request's references are released (the recycled transfer object may keep one until it is reused)");
 		REACH("curl_multi_add_handle failed");
 	}
-	restarted = (hc.roundStartAt != t3_roundStartAt0 || hc.roundCount < t3_roundCount0);
-	__CPROVER_assert(IMPLIES(!restarted, hc.roundCount == t3_roundCount0 + n_dispatched), "http throttle: the round counter counts exactly the requests handed to curl");
-	__CPROVER_assert(IMPLIES(restarted, spec_async_round_over(t2_now, t3_roundStartAt0, dur) && hc.roundCount <= n_dispatched), "http throttle: a new round starts only when the round duration has elapsed and counts from 0");
+	restarted = spec_async_round_over(t2_now, t3_roundStartAt0, dur);     /* the round duration has elapsed by the END of the call: only then may a new round have been started */
+	__CPROVER_assert(IMPLIES(!restarted, hc.roundStartAt == t3_roundStartAt0 && hc.roundCount == t3_roundCount0 + n_dispatched), "http throttle: no new round before the duration has elapsed; the round counter counts exactly the requests handed to curl");
+	__CPROVER_assert(IMPLIES(restarted, hc.roundCount <= t3_roundCount0 + n_dispatched && (hc.roundStartAt == t3_roundStartAt0 || (hc.roundStartAt >= t2_now0 && hc.roundStartAt <= t2_now))), "http throttle: a new round starts at the current time and counts from 0");
 	__CPROVER_assert(IMPLIES(n_dispatched > 0, hc.roundCount <= maxc), "http throttle: never more than the configured number of requests per round");
 	/* --- input half: the transfer that was in flight --- */
 	if (have_fl) {
